@@ -93,6 +93,7 @@ def hdrWindow (ws : List String) : String :=
           | none => none
           | some w =>
             if op == "rot" then some w.rotate
+            else if op == "mrg" then some w     -- an intermediate Merge only reads
             else match (op.drop 1).toInt? with
               | some v => some (w.record v)
               | none => none
